@@ -8,9 +8,10 @@ This is the behaviour AFTER the `fix:` commits (`cmapProbes`, `safeName`); the p
 kept as `cmapProbesPinned` / `imagePathPinned` for the proved counter-examples.
 -/
 import PdfVerif.Model.ImageName
+import PdfVerif.Gen.PathGen
 
 namespace PdfVerif.Path
-open PdfVerif PdfVerif.ImageName
+open PdfVerif PdfVerif.ImageName PdfVerif.Gen.PathGen
 
 def isAbs (p : Bytes) : Bool := p.head? == some 47
 
@@ -56,7 +57,10 @@ def stripNul (name : Bytes) : Bytes := name.filter (· != 0)
 
 /-- `"%s.pickle.gz" % name`. -/
 def cmapFilename (name : Bytes) : Bytes :=
-  stripNul name ++ [46, 112, 105, 99, 107, 108, 101, 46, 103, 122]
+  cmapPrefix ++ stripNul name ++ cmapSuffix
+
+/-- `"to-unicode-%s" % name`: the CMap name `get_unicode_map` asks `_load_data` for. -/
+def unicodeMapName (cidcoding : Bytes) : Bytes := toUnicodePrefix ++ cidcoding ++ toUnicodeSuffix
 
 /-- `os.path.basename(f) == f` on POSIX: no `/`. -/
 def plainFile (f : Bytes) : Bool := !f.contains 47
@@ -72,7 +76,7 @@ def cmapProbesPinned (dirs : List Bytes) (name : Bytes) : List Bytes :=
 /-! ### image output paths -/
 
 /-- Path separators and NUL in a document-supplied image name become `_`. -/
-def safeName (name : Bytes) : Bytes := name.map (fun c => if c = 47 ∨ c = 0 then 95 else c)
+def safeName (name : Bytes) : Bytes := name.map (fun c => if c = 47 ∨ c = 0 then imageReplacement else c)
 
 /-- (file name, path) of `_create_unique_image_name` for a directory listing `existing`. -/
 def imagePath (outdir name ext : Bytes) (existing : List Bytes) : Option (Bytes × Bytes) :=
